@@ -112,6 +112,15 @@ def main(chk):
             combos = [("0", False, False)] if chk.tier == "quick" and i % 5 else [(v, a, b) for v in ("0", "15") for a, b in gen.SWITCHES]
             for v, a, b in combos:
                 cases.append(("Ace", l, (("platform", platform), ("version", v), ("port_nr", a), ("protocol_nr", b)), False))
+        # every named port number, written as a number: the renderer picks the name, the parser must accept it back
+        from pyvc import loader
+        c = loader.module_constants("cisco_acl.port_name")
+        for version, (tt, ut) in ({"15": ("TCP_NAME_PORT__IOS_15", "UDP_NAME_PORT__IOS_15"), "16": ("TCP_NAME_PORT__IOS_16", "UDP_NAME_PORT__IOS_16"),
+                                   "0": ("TCP_NAME_PORT__IOS_16", "UDP_NAME_PORT__IOS_16")} if platform == "ios" else {"9": ("TCP_NAME_PORT__NXOS", "UDP_NAME_PORT__NXOS")}).items():
+            for proto, tab in (("tcp", tt), ("udp", ut)):
+                for nr in sorted(set(c[tab].values())):
+                    cases.append(("Ace", f"permit {proto} any any eq {nr}", (("platform", platform), ("version", version)), True))
+                    cases.append(("Ace", f"permit {proto} any eq {nr} any eq 80 {nr}" if platform == "ios" else f"permit {proto} any eq {nr} any", (("platform", platform), ("version", version)), True))
         for a in gen.ADDRS[platform]:
             cases.append(("Address", a, (("platform", platform),), False))
         for proto, ports in (("tcp", gen.PORTS_TCP[platform]), ("udp", gen.PORTS_UDP[platform])):
